@@ -32,7 +32,7 @@ func init() {
 			{Name: "sweep-retry", Run: c07Sweep, SweepN: c07SweepN, QuickSweep: true, Exhaustive: true,
 				SweepNote: "every sequence of up to 3 outcomes over {accept 0, 1, half, all} x {temporary, permanent, plain error} (then success), x retry budgets 0..3 x {io.Writer, MultistreamWriter}: 15 080 cases"},
 		},
-		MustProbes: []string{"writer-blocked-on-lock", "stall-with-queued-writers", "retry-resumed", "sctp-concurrent-writes", "sctp-write-stall", "retry-after-write-timeout", "write-timeout"},
+		MustProbes: []string{"writer-blocked-on-lock", "stall-with-queued-writers", "retry-resumed", "sctp-concurrent-writes", "sctp-write-stall", "retry-after-write-timeout", "write-timeout", "sctp-retry-while-reader-elsewhere"},
 	})
 }
 
@@ -722,6 +722,8 @@ func c07Sctp(e *Env) {
 				op.inv = e.Seq()
 				if op.api == "stream" {
 					_, op.err = op.msg.WriteToStream(conn, op.stream)
+				} else if op.api == "plain-retry" {
+					_, op.err = op.msg.WriteToWithRetry(conn, 2)
 				} else {
 					_, op.err = op.msg.WriteTo(conn) // no stream: the association's default
 				}
@@ -745,6 +747,7 @@ func c07Sctp(e *Env) {
 		tk.gate <- struct{}{}
 	}
 	stalled := false
+	inbound := 0
 	for e.Step() {
 		var idle []*stask
 		mu.Lock()
@@ -760,6 +763,30 @@ func c07Sctp(e *Env) {
 		mu.Unlock()
 		if len(idle) == 0 && !stalled {
 			break
+		}
+		if !stalled && busy == 0 && len(idle) > 0 && inbound < 3 && t.Chance(1, 5) {
+			// exclusive: a stream-less message written with retries; its first send blocks and then
+			// fails temporarily while the reader moves into a message on another stream
+			tk := idle[t.Draw(len(idle))]
+			mu.Lock()
+			op := tk.ops[tk.next]
+			mu.Unlock()
+			if op.api == "plain" {
+				op.api = "plain-retry"
+				be.ArmWriteFault(&WriteFault{Kind: "stall-temp", After: t.Range(0, 30)})
+				be.SetTag(1000 + 10*op.w + op.s)
+				start(tk)
+				e.Quiesce()
+				inbound++
+				in := RefMsg{Cmd: 900, Flags: 0x80, HbH: 99, E2E: 99, AVPs: []RefAVP{{Code: avpSimOctets, Data: marker(9, inbound, 60, 1)}}}.Bytes()
+				be.Feed(sctpChunk{uint16(2 + inbound), in[:len(in)-5]}) // header and most of the body, never the whole message
+				e.Quiesce()
+				be.Resume()
+				e.Quiesce()
+				be.SetTag(-1)
+				e.Probe("sctp-retry-while-reader-elsewhere")
+				continue
+			}
 		}
 		switch {
 		case stalled && (len(idle) == 0 || t.Chance(1, 3)):
@@ -800,6 +827,24 @@ func c07Sctp(e *Env) {
 	be.mu.Lock()
 	ws := append([]sctpWrite{}, be.writes...)
 	be.mu.Unlock()
+	// attempts of an exclusive retried write carry a tag: reassemble, and require one stream
+	var merged []sctpWrite
+	byTag := map[int]int{}
+	for _, wr := range ws {
+		if wr.tag >= 1000 {
+			if i, ok := byTag[wr.tag]; ok {
+				if merged[i].stream != wr.stream {
+					e.Fail("C07/retry-wrong-stream/sctp", "a retried stream-less message was started on stream %d and continued on stream %d", merged[i].stream, wr.stream)
+					return
+				}
+				merged[i].data = append(merged[i].data, wr.data...)
+				continue
+			}
+			byTag[wr.tag] = len(merged)
+		}
+		merged = append(merged, sctpWrite{stream: wr.stream, data: append([]byte{}, wr.data...), tag: wr.tag})
+	}
+	ws = merged
 	pos := map[[2]int]int{}
 	for i, wr := range ws {
 		rm, err := refParse(wr.data)
